@@ -14,6 +14,7 @@ __doc__ = """
 
 # Distribution packages
 import unittest
+from datetime import datetime
 # from warnings import warn
 
 # Site-Packages
@@ -171,7 +172,16 @@ class uamiv(ioapi_base):
                                       var_desc='Ending TFLAG'.ljust(80))
 
         self.SDATE, self.STIME = self.variables['TFLAG'][0, 0, :]
-        self.TSTEP = etflagv[0, 0, 1] - tflagv[0, 0, 1]
+        # the first step may end on the day after it begins (23:00 to 00:00)
+        bdate, btime = [int(v) for v in tflagv[0, 0, :]]
+        edate, etime = [int(v) for v in etflagv[0, 0, :]]
+        ndays = (datetime.strptime('%07d' % edate, '%Y%j') -
+                 datetime.strptime('%07d' % bdate, '%Y%j')).days
+        nsecs = ndays * 86400 + (
+            (etime // 10000 * 3600 + etime % 10000 // 100 * 60 + etime % 100) -
+            (btime // 10000 * 3600 + btime % 10000 // 100 * 60 + btime % 100))
+        self.TSTEP = (nsecs // 3600 * 10000 + nsecs % 3600 // 60 * 100 +
+                      nsecs % 60)
         if P_ALP is not None:
             self.P_ALP = P_ALP
         if P_BET is not None:
